@@ -706,7 +706,11 @@ class FaultProfile(PersistProfile):
             if must_ve and not isinstance(out.exc, ValueError):
                 fail("reject_class:ValueError", "magic/version fault must be rejected with ValueError, got %s: %s" % (type(out.exc).__name__, out.exc))
             if exp == "deser" and not isinstance(out.exc, DE):
-                w.violate(("C09",), "reject_class:DeserializationError", "dangling / ill-typed reference must be rejected with DeserializationError, got %s: %s" % (type(out.exc).__name__, out.exc))
+                if w.owns(("C09",)):
+                    w.violate(("C09",), "reject_class:DeserializationError", "dangling / ill-typed reference must be rejected with DeserializationError, got %s: %s" % (type(out.exc).__name__, out.exc))
+                # C17 only asks for a rejection: a finding that belongs to C09 alone must not end this
+                # file's fault list (it used to abort the run and so masked the faults listed after it)
+                stats["probe:reject_class_not_deser"] += 1
             w.event({"fault": desc, "out": "reject:" + type(out.exc).__name__})
             return
         stats["outcome:accept:" + kind] += 1
